@@ -37,6 +37,8 @@ type verifTokState struct {
 	// when replaying a fixed expression
 	fixed    []int
 	useFixed bool
+	// choose only among tokens that keep the prefix viable in the reference grammar
+	viableOnly bool
 }
 
 var verifTok verifTokState
@@ -129,6 +131,21 @@ func verifNextToken(l *lexer) item {
 	if t.useFixed {
 		if len(t.expr) < len(t.fixed) {
 			k = t.fixed[len(t.expr)]
+		}
+	} else if t.viableOnly {
+		// only tokens that keep the prefix inside the reference grammar (and
+		// completable within L tokens); the property says nothing about the rest
+		var cand []int
+		for c := vtA; c <= vtRP; c++ {
+			if verifComplete(append(append([]int{}, t.expr...), c), t.L) != nil {
+				cand = append(cand, c)
+			}
+		}
+		if full := verifComplete(t.expr, t.L); full != nil && len(full) == len(t.expr) {
+			cand = append(cand, vtEnd)
+		}
+		if len(cand) > 0 {
+			k = cand[verifChoice(len(cand))]
 		}
 	} else if len(t.expr) < t.L {
 		k = verifChoice(vtEnd + 1)
@@ -487,7 +504,7 @@ func verifC10Run() {
 
 // HarnessC10Tokens: all expressions of up to L tokens.
 func HarnessC10Tokens() {
-	verifTok = verifTokState{L: verifParam("L")}
+	verifTok = verifTokState{L: verifParam("L"), viableOnly: verifParam("viable") == 1}
 	verifC10Run()
 }
 
